@@ -32,6 +32,15 @@ free = list(wts)
 
 def one(it):
     d, sid, prop = it
+    try:
+        ob = json.load(open(f"{d}/meta.json")).get("obsolete_at_head")
+    except Exception:
+        ob = None
+    if ob and not harmless:
+        # the library received a repair after this change was written: with the patch applied the demonstration passes (re-confirmed, see meta.json),
+        # so exit 0 is the right verdict and the entry is kept for the record only
+        json.dump({"seed": sid, "property": prop, "status": "obsolete: no longer breaks the property at /repo HEAD", "reason": ob}, open(f"{d}/result.json", "w"), indent=1)
+        return (sid, "obsolete", [], [])
     wt = free.pop()
     try:
         subprocess.run(["git", "-C", wt, "checkout", "--", "."], check=True)
